@@ -33,8 +33,25 @@ Theorem C18_flow_rates_nonneg :
 Proof. intros O T m b p t x0 i f Hw Hm Hf. exact (flow_rate_nonneg O T m b p t x0 Hw Hm i f Hf). Qed.
 Print Assumptions C18_flow_rates_nonneg.
 
-(* partial: "compartment sizes along any solved trajectory never fall below zero by more than the
-   solver's tolerance" is a statement about the numerical integrators and is sampled (DESIGN 6.18) *)
+(* discrete invariance: the s-th entry of an Euler step y + h f(t, y) from a state whose s-th entry is
+   non-negative stays non-negative as long as h x (the total rate coefficient with which s is emptied:
+   the sum over the flows leaving s of weight, times the force-of-infection multiplier for infection
+   flows) <= 1 - for every model, time, parameters and state of the other compartments.
+   partial: for RK4 and the adaptive solver "never below zero by more than the solver's tolerance" is a
+   statement about their truncation error and is sampled (DESIGN 6.18) *)
+Theorem C18_euler_step_nonneg :
+  forall (O : NumOps) (T : NumTheory O) (m : model) (b : backend) (p : env O) (t : F O) (x0 : list (F O)) (s : nat) (h : F O),
+    prepare_structural m = Ok b ->
+    (forall f, In f (m_flows m) -> fle O T (f0 O) (weight_spec O p t (vclean O x0) f)) ->
+    (forall k, fle O T (f0 O) (nth k (muls_of O m b p t x0) (f0 O))) ->
+    (forall f, In f (m_flows m) -> flow_shape f) ->
+    (s < List.length (m_comps m))%nat -> List.length x0 = List.length (m_comps m) ->
+    fle O T (f0 O) (nth s x0 (f0 O)) ->
+    (forall f c, In f (m_flows m) -> f_src f = Some c -> comp_index (m_comps m) c = s -> fkind_eqb (f_kind f) KAbs = false) ->
+    fle O T (f0 O) h -> fle O T (fmul O h (exit_coeff O m b p t x0 s)) (f1 O) ->
+    fle O T (f0 O) (fadd O (nth s x0 (f0 O)) (fmul O h (nth s (get_comp_rates O m b p t x0) (f0 O)))).
+Proof. intros O T m b p t x0 s h Hb Hw Hm Hs. exact (euler_keeps_nonneg O T m b p t x0 Hb Hw Hm Hs s h). Qed.
+Print Assumptions C18_euler_step_nonneg.
 
 (* non-vacuity: example model with I (both strata) empty / slightly negative: its rates are >= 0 *)
 Example C18_nonvacuous :
